@@ -29,6 +29,7 @@ structure LTXFile where
   salt1 : Nat := 0
   salt2 : Nat := 0
   pages : List (Nat × ByteArray)
+  old : Bool := false     -- modification time before the retention cut-off
 
 structure WalSt where
   offset : Nat := 0
@@ -165,14 +166,8 @@ def addLTX (l : List LTXFile) (f : LTXFile) : List LTXFile :=
     | g :: gs => if f.minTxid < g.minTxid || (f.minTxid == g.minTxid && f.maxTxid < g.maxTxid) then f :: g :: gs else g :: ins gs
   ins l
 
-/-- `CommitJournal(mode)` -/
-def commitJournal (s : Eng) (mode : Nat) : M Eng := do
-  if !s.writeable then fail s .readonly
-  -- isJournalHeaderValid
-  let j ← (match s.journal with | none => fail s .err | some j => pure j)
-  if j.size < 8 then fail s .err
-  if j.extract 0 8 != journalMagic then return ← invalidateJournal s mode
-  if s.pageSize = 0 then return ← invalidateJournal s mode
+/-- `CommitJournal(mode)` once the journal header is known to be valid and the page size known -/
+def commitJournalValid (s : Eng) (mode : Nat) : M Eng := do
   let txid := s.posTxid + 1
   let dbf ← (match s.dbFile with | none => fail s .err | some f => pure f)
   if dbf.size < 32 then fail s .err
@@ -206,6 +201,16 @@ def commitJournal (s : Eng) (mode : Nat) : M Eng := do
   let s := { s with ltx := addLTX s.ltx file }
   let s ← invalidateJournal s mode
   pure { s with pageN := commit, walMode := walMode, posTxid := txid, posChk := post }
+
+/-- `CommitJournal(mode)` -/
+def commitJournal (s : Eng) (mode : Nat) : M Eng := do
+  if !s.writeable then fail s .readonly
+  -- isJournalHeaderValid
+  let j ← (match s.journal with | none => fail s .err | some j => pure j)
+  if j.size < 8 then fail s .err
+  if j.extract 0 8 != journalMagic then return ← invalidateJournal s mode
+  if s.pageSize = 0 then return ← invalidateJournal s mode
+  commitJournalValid s mode
 
 /-- `WriteJournalAt` (journal handle open) -/
 def writeJournalAt (s : Eng) (offset : Nat) (data : ByteArray) : M Eng := do
@@ -447,5 +452,11 @@ def importDB (s : Eng) (data : ByteArray) : M Eng := do
     match body with
     | .ok s' => pure { s' with locks := s'.locks.unlockAll i }
     | .error (s', r) => fail { s' with locks := s'.locks.unlockAll i } r
+
+/-- `EnforceRetention(minTime)` without a backup client: every file older than the cut-off is
+    removed, except the newest file of the listing -/
+def enforceRetention (s : Eng) : Eng :=
+  let n := s.ltx.length
+  { s with ltx := (s.ltx.zipIdx.filter fun p => !(p.1.old && p.2 + 1 ≠ n)).map (·.1) }
 
 end LiteFSVerif.Engine
